@@ -24,6 +24,10 @@ pub struct Knobs {
     pub spurious_park: Option<u32>,
     /// ticks the virtual clock advances per `Instant::now()`
     pub tick: u64,
+    /// happens-before / lifetime tracking on (C04, C07, C13, C15 runs)
+    pub track: bool,
+    /// nowait monitors on (C14, C19 runs)
+    pub nowait: bool,
 }
 
 impl Default for Knobs {
@@ -33,6 +37,8 @@ impl Default for Knobs {
             parallelism: 2,
             spurious_park: None,
             tick: 1,
+            track: true,
+            nowait: true,
         }
     }
 }
@@ -89,6 +95,8 @@ pub(crate) struct Exec {
     pub counters: Counters,
     pub violation: Option<String>,
     pub active: bool,
+    pub stamp: u64,
+    pub publish_log: Vec<(usize, u64)>,
 }
 
 impl Exec {
@@ -103,6 +111,8 @@ impl Exec {
             counters: Counters::default(),
             violation: None,
             active: false,
+            stamp: 0,
+            publish_log: Vec::new(),
         }
     }
 }
@@ -154,6 +164,18 @@ pub(crate) fn with_thread<R>(f: impl FnOnce(&mut Exec, usize) -> R) -> R {
 /// Set once per process (before the first execution).
 pub fn set_knobs(k: Knobs) {
     with(|e| e.knobs = k);
+}
+
+pub fn set_tracking(on: bool) {
+    with(|e| e.knobs.track = on);
+}
+
+pub fn set_nowait_checks(on: bool) {
+    with(|e| e.knobs.nowait = on);
+}
+
+pub fn tracking() -> bool {
+    with(|e| e.knobs.track)
 }
 
 pub fn knobs() -> Knobs {
@@ -228,6 +250,20 @@ pub fn thread_name() -> usize {
     with_thread(|e, i| e.threads[i].1.name)
 }
 
+/// Global event counter of the execution (loom runs one thread at a time, so
+/// stamps are consistent with real time).
+pub fn stamp() -> u64 {
+    with(|e| {
+        e.stamp += 1;
+        e.stamp
+    })
+}
+
+/// (thread name, stamp) of every waiter publication so far.
+pub fn publishes() -> Vec<(usize, u64)> {
+    with(|e| e.publish_log.clone())
+}
+
 pub fn violation_recorded() -> Option<String> {
     with(|e| e.violation.clone())
 }
@@ -260,7 +296,7 @@ pub fn violation(kind: &str, msg: &str) -> ! {
 #[inline(never)]
 pub fn spin_begin(site: usize) {
     with_thread(|e, i| {
-        if e.threads[i].1.nowait.is_some() {
+        if e.knobs.nowait && e.threads[i].1.nowait.is_some() {
             // entering a wait-for-peer loop inside a non-blocking call
             e.violation
                 .get_or_insert_with(|| format!("nowait: signal wait loop (site {site}) entered inside a non-blocking operation"));
@@ -327,6 +363,9 @@ pub(crate) fn event(ev: Ev) {
             Ev::Park => e.counters.parks += 1,
             Ev::Yield => e.counters.yields += 1,
             _ => e.counters.atomic_ops += 1,
+        }
+        if !e.knobs.nowait {
+            return None;
         }
         let Some((kind, ops, loads)) = e.threads[i].1.nowait.as_mut() else {
             return None;
